@@ -109,9 +109,12 @@ structure Fixes where
 
 /-- the code before any of the repairs -/
 def Fixes.asIs : Fixes := {}
-/-- the code as it is in /repo now: the SQL empty-part repair is in (commit 6ff38ea), the others are
-proposed (fixes/C15-*.patch). The driver does not rely on this constant: the harness probes the tree. -/
-def Fixes.current : Fixes := { sqlEmptyRow := true }
+/-- the code as it is in /repo now: the SQL empty-part repair (6ff38ea), not-found for absent
+erasure-coded parts (38bdbce), the sticky EOF of the tink reader (c3b23d1) and parity healing (8d1eb6f) are
+in; the two further erasure-coding repairs of C17 (`endWhenEnoughEnded`, `failWhenTooFewOpen`) are
+proposed. The driver does not rely on this constant: the harness probes the tree. -/
+def Fixes.current : Fixes :=
+  { sqlEmptyRow := true, ec := { notFoundWhenAllMissing := true, healParity := true }, tinkStickyEof := true }
 def Fixes.repaired : Fixes := { sqlEmptyRow := true, ec := EC.Fix.repaired, tinkStickyEof := true }
 
 def sqlChunkSize : Nat := 256 * 1000 * 1000
